@@ -667,6 +667,9 @@ where
             .corrupted_blobs
             .store(corrupted, Ordering::Release);
 
+        if let Some(max_corrupted_id) = Self::max_old_corrupted_blob_id(&self.inner.config).await {
+            self.inner.next_blob_id.fetch_max(max_corrupted_id + 1, Ordering::AcqRel);
+        }
         let next = self.inner.next_blob_name()?;
         let mut safe = self.inner.safe.write().await;
         let blob =
@@ -691,6 +694,8 @@ where
         self.inner
             .corrupted_blobs
             .store(existed_corrupted_blob_count + new_corrupted_blob_count, Ordering::Release);
+        // IDs of previously quarantined blobs must not be reused (otherwise quarantined file can be overwritten)
+        let max_blob_id = max_blob_id.max(Self::max_old_corrupted_blob_id(&self.inner.config).await);
         self.inner
             .next_blob_id
             .store(max_blob_id.map_or(0, |i| i + 1), Ordering::Release);
@@ -835,6 +840,23 @@ where
         }
 
         corrupted
+    }
+
+    /// Max ID among the blobs that were moved to the corrupted dir earlier
+    async fn max_old_corrupted_blob_id(config: &Config) -> Option<usize> {
+        let mut corrupted_dir_path = config.work_dir()?.to_path_buf();
+        corrupted_dir_path.push(config.corrupted_dir_name());
+        let mut dir = read_dir(&corrupted_dir_path).await.ok()?;
+        let mut max_id = None;
+        while let Ok(Some(file)) = dir.next_entry().await {
+            let path = file.path();
+            if path.extension().and_then(|ext| ext.to_str()) == Some(BLOB_FILE_EXTENSION) {
+                if let Ok(file_name) = blob::FileName::from_path(&path) {
+                    max_id = max_id.max(Some(file_name.id()));
+                }
+            }
+        }
+        max_id
     }
 
     fn should_save_corrupted_blob(error: &anyhow::Error) -> bool {
